@@ -357,6 +357,17 @@ def choose(state, avail, rng, pol):
             w = {'passive': 0.3, 'aggressive': 3.0, 'foldy': 0.7,
                  'allin': 4.0}.get(policy, 1.0)
         weights.append(w)
+    if pol.get('voluntary_show') and state.street_index is None and \
+            rng.random() < pol['voluntary_show']:
+        # outside the showdown (forced bets not yet posted, or chips being
+        # pushed / pulled by hand) a player may turn his cards face up with
+        # an explicit index -- the documented "show after the hand" feature
+        cand = [i for i in state.player_indices if state.hole_cards[i]
+                and all(state.hole_cards[i])
+                and not all(state.hole_card_statuses[i])
+                and state.can_show_or_muck_hole_cards(True, i)]
+        if cand:
+            return 'show_or_muck_hole_cards', [True, rng.choice(cand)]
     op = rng.choices(avail, weights)[0]
     args = []
     s = state
@@ -627,7 +638,14 @@ def play_hand(cfg, pol, monitors, prop=None, max_ops=None):
                     ctx.script.append(['__fork__', fa])
                     state = fork_state(ctx, *fa)
                     continue
-                name, args = choose(state, avail, rng, pol)
+                try:
+                    name, args = choose(state, avail, rng, pol)
+                except Exception as exc:    # noqa: BLE001
+                    # a query or a read-only accessor raised while the
+                    # client was making up its mind
+                    ctx.data['op_exc'] = ('<query>', [], exc)
+                    ctx.data['query_exc'] = exc
+                    break
                 com = None
                 if pol.get('commentary') and rng.random() < 0.12:
                     com = rng.choice(COMMENTS)
